@@ -212,6 +212,20 @@ func c13Scenarios() map[string]c13Setup {
 		q := *p
 		return []c13Call{{"Assemble(p)", func() string { return c13Compile(p) }}, {"Assemble(copy of p)", func() string { return c13Compile(&q) }}}, []*seccomp.Policy{p, &q}
 	})
+	m["shared-copies-tiny"] = mkScenario(func() ([]c13Call, []*seccomp.Policy) {
+		// one group with one name, shared by two policy values: small enough for preemption bound 3
+		names := make([]string, 1, 3)
+		names[0] = s1Names(x)[1]
+		full := names[:3]
+		full[1], full[2] = c13Sentinel, c13Sentinel
+		groups := make([]seccomp.SyscallGroup, 1, 2)
+		groups[0] = seccomp.SyscallGroup{Action: seccomp.ActionErrno, Names: names}
+		groups[:2][1] = seccomp.SyscallGroup{Action: 0x7777}
+		p := &seccomp.Policy{DefaultAction: seccomp.ActionAllow, Syscalls: groups}
+		seccomp.VerifSetArch(p, x.Info)
+		q := *p
+		return []c13Call{{"Assemble(p)", func() string { return c13Compile(p) }}, {"Assemble(copy of p)", func() string { return c13Compile(&q) }}}, []*seccomp.Policy{p, &q}
+	})
 	m["shared-slices-two-archs"] = mkScenario(func() ([]c13Call, []*seccomp.Policy) {
 		// one Syscalls slice, two policy values with different target architectures
 		p := &seccomp.Policy{DefaultAction: seccomp.ActionKillProcess, Syscalls: []seccomp.SyscallGroup{
